@@ -58,12 +58,20 @@ func plan(tier string, seed int64) []driver.Case {
 		if e.Flags.Has(catalog.Hot) || e.Flags.Has(catalog.NonDet) || e.Flags.Has(catalog.Creation) || e.Flags.Has(catalog.TimeDriven) || e.Flags.Has(catalog.HandOff) || e.Flags.Has(catalog.Async) {
 			continue
 		}
-		var long []string
-		for i := 0; i < 150; i++ {
-			long = append(long, fmt.Sprint(rng.Intn(3)))
+		// three rounds with different item lists: whether two subscribers are inside the operator at the same
+		// moment is up to the scheduler, and one round of a half-shared scratch value is seen about every other time
+		for round := 0; round < 3; round++ {
+			var long []string
+			for i := 0; i < 150; i++ {
+				long = append(long, fmt.Sprint(rng.Intn(3)))
+			}
+			long = append(long, "C")
+			id := fmt.Sprintf("concsub-long/%s", e.Name)
+			if round > 0 {
+				id = fmt.Sprintf("concsub-long/%s/r%d", e.Name, round)
+			}
+			cases = append(cases, driver.Case{ID: id, Race: tier == "thorough" && round == 0, P: map[string]string{"kind": "concsub", "entry": e.Name, "script": strings.Join(long, " "), "k": "4", "concurrent": "1"}})
 		}
-		long = append(long, "C")
-		cases = append(cases, driver.Case{ID: fmt.Sprintf("concsub-long/%s", e.Name), Race: tier == "thorough", P: map[string]string{"kind": "concsub", "entry": e.Name, "script": strings.Join(long, " "), "k": "4", "concurrent": "1"}})
 	}
 	// curried multi-source operators (xxxWith(others...)): one operator value applied to several main sources
 	for _, cu := range curriedOps {
